@@ -109,6 +109,69 @@ theorem eq_written (f1 f2 : Bool) (s1 s2 : List Seg)
     cases ha; cases hb; rfl
   · rintro rfl; exact ⟨s1, rfl, rfl⟩
 
+theorem endsWith_append (a b : Str) : endsWith (a ++ b) b = true := by
+  simp [endsWith]
+
+/-- what `pop()` returns and the text it leaves -/
+def popView (p : PathObj) : Except PErr (Seg × Str) := (p.pop).map (fun x => (x.1, x.2.original))
+
+/-- **append_pop (partial).**  FULL STATEMENT wanted: for a written well-formed path `t` and the
+canonical text `seg` of one more segment, `YAMLPath(t).append(seg)` followed by `pop()` returns that
+segment and leaves the text `t`.  Proved here: `pop()` on the lengthened text `o1 = t ++ sep :: seg`
+returns the last (unescaped) segment `last` and restores exactly `t` WHENEVER `seg` is the
+library's own rendering of `last` (hypothesis `hr`; this is how the check builds `seg`).
+Missing: the strip=false twins of the simulation lemmas, which would discharge `hu`, `hl`, `hr` for
+canonical texts.  `append_text` is the other half: what `append` does to the text. -/
+theorem append_pop_partial (t seg : Str) (o1 : Str) (hn : normOriginal o1 = o1) (hnt : normOriginal t = t)
+    (ho : o1 = t ++ (inferSep o1).char :: seg)
+    (u : List Seg) (last : Seg)
+    (hu : parseWith (inferSep o1).isFslash false o1 = .ok u) (hl : u.getLast? = some last)
+    (hr : render (inferSep o1).isFslash [last] =
+      (if inferSep o1 = .fslash then (inferSep o1).char :: seg else seg)) :
+    popView (PathObj.new o1) = .ok (last, t) := by
+  have hune : u ≠ [] := by rintro rfl; simp at hl
+  have hauto : inferSep o1 ≠ .auto := by
+    cases h : o1 with
+    | nil => rw [h] at ho; simp at ho
+    | cons c r => simp [inferSep]; split <;> simp
+  cases hs : inferSep o1 with
+  | auto => exact absurd hs hauto
+  | dot =>
+    rw [hs] at hr hu ho
+    simp only [SepOpt.char] at ho
+    simp only [SepOpt.isFslash] at hr hu
+    simp at hr hu
+    have he : endsWith o1 ('.' :: seg) = true := by rw [ho]; exact endsWith_append t ('.' :: seg)
+    have hlen : o1.length - (seg.length + 1) = t.length := by rw [ho]; simp
+    have htk : o1.take t.length = t := by rw [ho]; simp
+    simp only [popView, PathObj.pop, PathObj.unescaped, PathObj.new, PathObj.setOriginal, PathObj.parseObj,
+      PathObj.getSep, hn, hs, SepOpt.isFslash]
+    simp [hu, hune, hl, hr, SepOpt.char, he, hlen, htk, hnt]
+    rfl
+  | fslash =>
+    rw [hs] at hr hu ho
+    simp only [SepOpt.char] at ho
+    simp only [SepOpt.isFslash] at hr hu
+    simp [SepOpt.char] at hr hu
+    have he : endsWith o1 ('/' :: seg) = true := by rw [ho]; exact endsWith_append t ('/' :: seg)
+    have hlen : o1.length - (seg.length + 1) = t.length := by rw [ho]; simp
+    have htk : o1.take t.length = t := by rw [ho]; simp
+    simp only [popView, PathObj.pop, PathObj.unescaped, PathObj.new, PathObj.setOriginal, PathObj.parseObj,
+      PathObj.getSep, hn, hs, SepOpt.isFslash]
+    simp [hu, hune, hl, hr, SepOpt.char, he, hlen, htk, hnt]
+    rfl
+
+/-- `append` on a non-empty path: the separator of the path's own notation and the segment text
+are added to the text (and every cache is dropped). -/
+theorem append_text (t seg : Str) (hnt : normOriginal t = t) (ht : t ≠ []) :
+    (PathObj.new t).append seg =
+      PathObj.new (t ++ (if inferSep t = .dot then '.' else '/') :: seg) := by
+  have hl : ¬ t.length < 1 := by
+    cases t with
+    | nil => exact absurd rfl ht
+    | cons c r => simp
+  simp [PathObj.append, PathObj.new, PathObj.setOriginal, PathObj.getSep, hnt, hl]
+
 /-! Witnesses: the hypotheses are met by concrete, non-trivial values. -/
 
 def demo : List Seg :=
@@ -132,6 +195,9 @@ example : wfSegs demoAll = true ∧ parse true (write false demoAll) = .ok demoA
 example : dotExpressible [(.key, .str "/a".toList)] = false ∧
     parse true (write false [(.key, .str "/a".toList)]) = .ok [(.key, .str "a".toList)] := by
   decide +kernel
+/-- append then pop on a concrete path (model): the segment comes back and the text is restored -/
+example : popView ((PathObj.new "a.b[1]".toList).append "c\\.d".toList)
+    = .ok ((.key, .str "c\\.d".toList), "a.b[1]".toList) := by decide +kernel
 /-- `eqModel` on the suspicion's input (after the repair): both have the single key `a.b` -/
 example : eqModel "a\\.b".toList "/a.b".toList = .ok true := by decide +kernel
 
